@@ -20,7 +20,9 @@ pub const K_MUTATED: u8 = 6;
 pub const K_BOMB: u8 = 7;
 pub const K_EXHAUSTIVE: u8 = 8;
 pub const K_MIXED: u8 = 9;
-pub const CLASS_NAMES: [&str; 9] = ["status-count", "negative-start", "random-payload", "wrong-frame-size", "unknown-address", "foreign-magic", "mutated-payload", "run-length-bomb", "exhaustive-payload<=2"];
+/// genuine NEW frames (the sender's true inputs the victim has not received yet) followed by a frame of the wrong size
+pub const K_GENUINE_TAIL: u8 = 10;
+pub const CLASS_NAMES: [&str; 11] = ["status-count", "negative-start", "random-payload", "wrong-frame-size", "unknown-address", "foreign-magic", "mutated-payload", "run-length-bomb", "exhaustive-payload<=2", "mixed", "genuine-new-frames-then-wrong-size"];
 /// classes that are rejected before any processing: raw trace equality is demanded
 fn preprocessing_class(k: u8) -> bool {
     matches!(k, K_STATUS | K_NEGSTART | K_UNKNOWN_ADDR | K_FOREIGN_MAGIC)
@@ -38,7 +40,7 @@ fn varint(mut vv: u64) -> Vec<u8> {
 
 pub struct InjState {
     pub n: u64,
-    pub by_class: [u64; 9],
+    pub by_class: [u64; 11],
     pub skipped_spoof_like: u64,
     pub no_base_packet: u64,
 }
@@ -70,7 +72,7 @@ pub fn inject_hook(core: &mut Core, ni: usize, t: u64, st: &mut InjState) {
     let mut r = core.inject_rng.fork(st.n);
     let mut class = inj.class;
     if class == K_MIXED {
-        class = r.pick(&[K_STATUS, K_NEGSTART, K_RANDOM, K_WRONGSIZE, K_UNKNOWN_ADDR, K_FOREIGN_MAGIC, K_MUTATED, K_BOMB]);
+        class = r.pick(&[K_STATUS, K_NEGSTART, K_RANDOM, K_WRONGSIZE, K_UNKNOWN_ADDR, K_FOREIGN_MAGIC, K_MUTATED, K_BOMB, K_GENUINE_TAIL]);
     }
     let (base_input, base_any) = {
         let net = core.net.borrow();
@@ -174,6 +176,50 @@ pub fn inject_hook(core: &mut Core, ni: usize, t: u64, st: &mut InjState) {
         K_FOREIGN_MAGIC => {
             m.magic = m.magic.wrapping_add(1 + r.below(60_000) as u16);
             desc = format!("{} with foreign magic {:#x}", KIND_NAMES[kind(&m) as usize], m.magic);
+        }
+        K_GENUINE_TAIL => {
+            // A packet whose first frames are the sender's TRUE inputs for frames the victim has not received yet (so they
+            // are not a spoof: accepting them early changes nothing) and whose last frame has the wrong size. The packet
+            // "has decoded frames of the wrong size"; whatever the endpoint does with the genuine prefix, the session must
+            // keep delivering the true inputs and keep processing the genuine packets that follow.
+            let handles: Vec<usize> = if victim_is_spec { (0..np).collect() } else { core.scn.peers.get(from as usize - 1).cloned().unwrap_or_default() };
+            let Some(&h0) = handles.first() else { return };
+            let l = if victim_is_spec { core.nodes[ni].fin.current_frame.max(-1) } else { core.nodes[ni].fin.cs.get(h0).map(|c| c.1).unwrap_or(-1) };
+            if victim_is_spec {
+                // a spectator's view of "last received" is not exposed; this class targets player endpoints
+                st.no_base_packet += 1;
+                return;
+            }
+            let frame_bytes = |f: i32| -> Option<Vec<u8>> {
+                let mut b = Vec::with_capacity(4 * handles.len());
+                for h in &handles {
+                    b.extend_from_slice(&core.truth.get(*h, f)?.0.to_le_bytes());
+                }
+                Some(b)
+            };
+            let reference = if l < 0 { vec![0u8; right] } else { match frame_bytes(l) { Some(b) => b, None => { st.no_base_packet += 1; return; } } };
+            let n_new = 1 + r.below(3) as i32;
+            let mut frames: Vec<Vec<u8>> = vec![];
+            for f in l + 1..=l + n_new {
+                match frame_bytes(f) {
+                    Some(b) => frames.push(b),
+                    None => break,
+                }
+            }
+            if frames.is_empty() {
+                // the sender has not produced anything the victim does not have yet
+                st.no_base_packet += 1;
+                return;
+            }
+            let n_genuine = frames.len();
+            let wrong = r.pick(&[0usize, 1, right.saturating_sub(1), right + 1, 2 * right, 2 * right + 3]);
+            frames.push((0..wrong).map(|_| r.next() as u8 | 1).collect());
+            let new_bytes = vh::codec_encode(&reference, &frames);
+            desc = format!("start frame {} with {n_genuine} genuine new frame(s) followed by a frame of {wrong} bytes (expected {right})", l + 1);
+            if let WBody::Input { bytes, start, .. } = &mut m.body {
+                *bytes = new_bytes;
+                *start = l + 1;
+            }
         }
         _ => {
             // payload classes
@@ -299,13 +345,13 @@ fn base_running(r: &mut Rng, frames: i32) -> Scn {
 pub fn cases(ctx: &Ctx) -> Vec<Case> {
     let mut out = vec![];
     let mut r = Rng::new(ctx.seed ^ 0xC08);
-    let classes = [K_STATUS, K_NEGSTART, K_RANDOM, K_WRONGSIZE, K_UNKNOWN_ADDR, K_FOREIGN_MAGIC, K_MUTATED, K_BOMB, K_MIXED];
+    let classes = [K_STATUS, K_NEGSTART, K_RANDOM, K_WRONGSIZE, K_UNKNOWN_ADDR, K_FOREIGN_MAGIC, K_MUTATED, K_BOMB, K_MIXED, K_GENUINE_TAIL];
     // ---- Running state, clean and lossy links, victim = node 0, forged sender = node 1
     for i in 0..ctx.n(2500, 80_000) {
         let mut rr = r.fork(i as u64);
         let mut s = base_running(&mut rr, 300);
         let class = classes[i % classes.len()];
-        s.link = if rr.chance(0.5) { Link::clean(rr.pick(&[0u64, 10, 30])) } else { Link { drop: 0.1, dup: 0.05, base_ms: rr.pick(&[0u64, 20]), jitter_ms: rr.pick(&[0u64, 20]), outages: vec![], faults: vec![] } };
+        s.link = if rr.chance(0.5) { Link::clean(rr.pick(&[0u64, 10, 30])) } else { Link { drop: 0.1, dup: 0.05, base_ms: rr.pick(&[0u64, 20]), jitter_ms: rr.pick(&[0u64, 20]), outages: vec![], faults: vec![], stragglers: vec![] } };
         s.inject = Some(Inject { victim: 0, from_addr: peer_addr(1), p: rr.pick(&[0.1, 0.3, 1.0]), after_ms: 1200, until_ms: 3700, class, exhaustive_from: None, synthesize: false, replay_genuine: false });
         out.push(Case { id: format!("running-{}-{i}", CLASS_NAMES.get(class as usize).unwrap_or(&"mixed")), scn: s });
     }
@@ -326,7 +372,7 @@ pub fn cases(ctx: &Ctx) -> Vec<Case> {
     for i in 0..ctx.n(800, 25_000) {
         let mut rr = r.fork(0x2000_0000 + i as u64);
         let mut s = base_running(&mut rr, 200);
-        s.link = Link { drop: rr.pick(&[0.0, 0.2]), dup: 0.0, base_ms: rr.pick(&[10u64, 40]), jitter_ms: 0, outages: vec![], faults: vec![] };
+        s.link = Link { drop: rr.pick(&[0.0, 0.2]), dup: 0.0, base_ms: rr.pick(&[10u64, 40]), jitter_ms: 0, outages: vec![], faults: vec![], stragglers: vec![] };
         let class = [K_STATUS, K_NEGSTART, K_RANDOM, K_WRONGSIZE, K_UNKNOWN_ADDR, K_BOMB, K_MUTATED][i % 7];
         s.inject = Some(Inject { victim: 0, from_addr: peer_addr(1), p: 1.0, after_ms: 0, until_ms: 700, class, exhaustive_from: None, synthesize: true, replay_genuine: false });
         out.push(Case { id: format!("handshake-{}-{i}", CLASS_NAMES[class as usize]), scn: s });
@@ -485,7 +531,7 @@ pub fn run_case(c: &Case) -> Outcome {
     let after_disc = c.id.starts_with("afterdisc") || c.id.starts_with("silentflood");
     // the oracles that decide "the inputs the session delivers" (not valid once a player is dropped)
     let o = if after_disc { Oracles { c02: true, ..Default::default() } } else { Oracles { c01: true, c03: true, c02: true, c06: true, ..Default::default() } };
-    let mut st = InjState { n: 0, by_class: [0; 9], skipped_spoof_like: 0, no_base_packet: 0 };
+    let mut st = InjState { n: 0, by_class: [0; 11], skipped_spoof_like: 0, no_base_packet: 0 };
     let w = run_scn_hook(&c.scn, o, false, &mut |core, ni, t| inject_hook(core, ni, t, &mut st));
     let mut out = Outcome::new(world_desc(&w));
     absorb_obs(&mut out, &w);
@@ -632,6 +678,7 @@ pub fn check(ctx: &Ctx) -> i32 {
         let parts = par_run(ctx, &chunks, &|c: &Chunk| format!("chunk-{}-{}", c.from, c.to), &|c: &Chunk| {
             // returns a carrier outcome whose sample holds the per-case outcomes
             let mut carrier = Outcome::new(Value::Null);
+            carrier.keep_sample = true;
             let mut collected: Vec<Value> = vec![];
             let mut from = c.from;
             let mut restarts = 0;
